@@ -141,10 +141,8 @@ func VerifH_C11_Accounting() {
 	case 0:
 		m := vrt.Choose("nrequested", vrt.Param("maxreq", 3)+1)
 		for i := 0; i < m; i++ {
+			// the request may name a property more than once
 			r := symXMLName("req")
-			for _, prev := range requested {
-				vrt.Assume(r != prev)
-			}
 			requested = append(requested, r)
 		}
 		// the request may name a property with content (e.g. calendar-data
@@ -231,8 +229,20 @@ func VerifH_C11_Accounting() {
 
 	switch form {
 	case 0:
-		vrt.Assert(len(entries) == len(requested), "prop: one entry per requested property")
+		var distinct []xml.Name
 		for _, r := range requested {
+			dup := false
+			for _, d := range distinct {
+				if d == r {
+					dup = true
+				}
+			}
+			if !dup {
+				distinct = append(distinct, r)
+			}
+		}
+		vrt.Assert(len(entries) == len(distinct), "prop: one entry per distinct requested property")
+		for _, r := range distinct {
 			checkOne(r, true, "prop")
 		}
 		vrt.Reach("accounting/prop")
